@@ -58,11 +58,20 @@ def check_layouts(toks, directive, rnd, nvar, origin, counters):
     S = sut.load()
     base = lay.layout(toks, directive, "single", random.Random(1))
     b = _parse(S, base.text)
+    vs = []
     if b[0] != "ok":
-        return None, []
+        # not accepted in the single-space layout: it must then be rejected in the tightest layout as well
+        alt = lay.layout(toks, directive, "minimal", random.Random(1))
+        a = _parse(S, alt.text)
+        if a[0] != "ok":
+            return None, []
+        vs.append({"kind": "layout-variant-rejected", "sig": "single:" + str(b[1] if len(b) > 1 else b[0]).split(": ", 1)[-1][:30],
+                   "case": {"tokens": toks, "directive": sorted(directive), "style": "single", "layout_seed": 1, "marker_p": 0.12,
+                            "origin": origin, "baseline": "minimal"},
+                   "detail": {"outcome": b[:2], "variant_text": base.text[:600], "accepted_as": alt.text[:300]}})
+        b = a
     bn = nf(b[1])
     bg = _gen(S, b[1])
-    vs = []
     styles = ["lines", "random", "minimal", "marked", "tabs", "samepos", "marked", "random", "marked", "minimal", "marked"]
     for vi in range(nvar):
         style = styles[vi % len(styles)]
@@ -181,7 +190,8 @@ def run_shard(spec):
                 if vs and len(res["violations"]) < 40:
                     res["violations"] += vs
     elif spec["mode"] == "corpus":
-        for name, text in corpus.zoo() + corpus.repo_files():
+        from ..gen import extras
+        for name, text in corpus.zoo() + corpus.repo_files() + extras.TEXTS:
             toks, directive = corpus_tokens(text)
             if toks:
                 one(toks, directive, {"file": name})
@@ -213,7 +223,7 @@ def replay(rec):
         return check_parens(dict(c["recipe"], render="min"), cnt)
     S = sut.load()
     toks, directive = c["tokens"], set(c["directive"])
-    base = lay.layout(toks, directive, "single", random.Random(1))
+    base = lay.layout(toks, directive, c.get("baseline", "single"), random.Random(1))
     b = _parse(S, base.text)
     L = lay.layout(toks, directive, c["style"], random.Random(c["layout_seed"]), marker_p=c.get("marker_p", 0.12))
     v = _parse(S, L.text)
